@@ -15,6 +15,8 @@ and every keyword-case variation of valid queries.
 * `old_lowering_panics` — with the pre-fix lowering the executed input `SELECT ȺȺȺȺȺȺȺȺ FROM t`
   panics in the model, too.
 * `case_insensitive_partial` — see the end of the file.
+* `asciiLower_pointwise`, `lowerB_spec`, `asciiLower_context_free`, `keyword_lowered_in_place` — the lowering
+  is a byte map: a keyword is lowered in place whatever bytes (non-ASCII runes) stand next to it.
 -/
 namespace KafVerif.SqlParser
 
@@ -847,5 +849,47 @@ theorem _root_.KafVerif.C35.case_insensitive_topics (a b : Bytes) (h : asciiLowe
 
 example : asciiLower (str "SELECT a FROM T") = asciiLower (str "select A from t") := by decide
 
+/-! ### the lowering is a byte map (C35-r2-2)
+
+`lowerASCII` must treat every byte on its own: the byte after a multi-byte rune (e.g. the `W` of
+`WHERE` directly after U+3000) is lowered like any other.  The implementation is compared with
+`asciiLower` byte by byte on such strings (op `l` of the harness / driver); these theorems say what
+the model guarantees, whatever bytes surround a keyword. -/
+
+/-- output byte `i` depends on input byte `i` only -/
+theorem _root_.KafVerif.C35.asciiLower_pointwise (s : Bytes) (i : Nat) :
+    (asciiLower s)[i]? = s[i]?.map lowerB := by
+  simp [asciiLower]
+
+/-- bytes of multi-byte UTF-8 sequences (and every other non-letter) are left alone, upper-case
+ASCII letters become lower-case, wherever they stand -/
+theorem _root_.KafVerif.C35.lowerB_spec (b : UInt8) :
+    (128 ≤ b → lowerB b = b) ∧ (65 ≤ b ∧ b ≤ 90 → lowerB b = b + 32) ∧ (¬ (65 ≤ b ∧ b ≤ 90) → lowerB b = b) := by
+  refine ⟨fun h => ?_, fun h => ?_, fun h => ?_⟩
+  · have : ¬ (65 ≤ b ∧ b ≤ 90) := by
+      intro ⟨_, h2⟩
+      have h' : (128 : UInt8).toNat ≤ b.toNat := UInt8.le_iff_toNat_le.mp h
+      have h2' : b.toNat ≤ (90 : UInt8).toNat := UInt8.le_iff_toNat_le.mp h2
+      simp at h' h2'
+      omega
+    simp [lowerB, this]
+  · simp [lowerB, h]
+  · simp [lowerB, h]
+
+/-- lowering does not look at the context: a keyword is lowered the same way after any prefix -/
+theorem _root_.KafVerif.C35.asciiLower_context_free (pre k suf : Bytes) :
+    asciiLower (pre ++ k ++ suf) = asciiLower pre ++ asciiLower k ++ asciiLower suf := by
+  simp [asciiLower]
+
+/-- whatever bytes precede a keyword typed in any letter case (a non-ASCII rune, ill-formed UTF-8,
+nothing), the lowered statement carries the lower-case keyword at the same byte offset -/
+theorem _root_.KafVerif.C35.keyword_lowered_in_place (pre k suf kw : Bytes) (h : asciiLower k = kw) :
+    ((asciiLower (pre ++ k ++ suf)).drop pre.length).take kw.length = kw := by
+  rw [KafVerif.C35.asciiLower_context_free, List.append_assoc]
+  have h1 : (asciiLower pre).length = pre.length := KafVerif.C35.asciiLower_length pre
+  rw [← h1, List.drop_left, ← h, List.take_left]
+
+example : asciiLower ([0xE3, 0x80, 0x80] ++ str "WHERE" ++ str " x") = [0xE3, 0x80, 0x80] ++ str "where" ++ str " x" := by decide
+example : keywordIndex (asciiLower (str "select * from t" ++ [0xE3, 0x80, 0x80] ++ str "WHERE x")) "where" = some 18 := by decide
 
 end KafVerif.SqlParser
